@@ -22,6 +22,10 @@ META = {
 }
 
 FINDINGS = {
+    "C05-deleted-key-resurrected": ("on a swamp with a write interval > 0: delete a persisted key, create it again and delete it again before the "
+                                    "writer runs — SaveFunction replaces the queued delete by the new treasure, deleteHandler then drops the "
+                                    "unwritten treasure from the write buffer, nothing is written, and the originally persisted record is back "
+                                    "after close + reload"),
     "C05-zero-like-reloads-void": ("gob omits zero-valued fields: Int8..Uint64 0, Float32/64 ±0.0, false, \"\", empty bytes and an empty "
                                    "uint32 slice have their content type before a close and come back as void (no value) after it; "
                                    "metadata survives"),
